@@ -102,6 +102,8 @@ template <class PT> void run_cloud(vf::Ctx& c, const char* tname, const Cloud& c
     est.compute(P, tree2, n7, c7);
     large.compute(P, tree2, t2);
     PointSet<PT> part(P.begin(), P.begin() + std::max<size_t>(k + 1, N / 2)); NormalSet<PT> tp(part.size(), PT(PT::Zero())); est.compute(part, tp);
+    { PointSet<PT> oth(P.rbegin(), P.rend()); for (size_t i = 0; i + 1 < oth.size(); ++i) for (int d = 0; d < DIM; ++d) oth[i][d] = (S)(oth[i][d] * (S)1.25 + (S)(0.3 - 0.1 * d)); NormalSet<PT> tr(oth.size(), PT(PT::Zero())); est.compute(oth, tr); }   // another (scaled, shifted) cloud whose LAST stored point is exactly this cloud's first one
+    { size_t qi = 0; typename PT::Scalar qd = 0; tree2.findNearestNeighbor(P[N / 2], qi, qd); }   // a closest-point query on the shared tree in between
     est.compute(P, tree2, n8, c8);
     // a copy of the estimator, and the larger-k estimator overwritten by assignment
     NormalSet<PT> n9 = fresh_normals(), n10 = fresh_normals(); std::vector<S> c9(N), c10(N);
@@ -205,7 +207,7 @@ std::string vf_describe(const std::string& tier) {
   o.str("rotations", "identity, Rz(0.3), Rx(1.1)Ry(-0.7) (2D: R(-2.0)), Rz(pi)");
   o.str("output_normals", "zero-initialised and default-constructed (homogeneous coordinate 1; Cartesian: constant 0.5)");
   o.str("overloads", "all six compute overloads, compared bitwise");
-  o.str("history", "a second kd-tree shared with an estimator of smaller k (first) and larger k (later), the estimator under test also run on a sub-cloud in between, a copy-constructed estimator and an estimator overwritten by assignment, and an estimator run on a point-set buffer that is then refilled in place: answers bit-equal to the first run");
+  o.str("history", "a second kd-tree shared with an estimator of smaller k (first) and larger k (later), the estimator under test also run on a sub-cloud and on another cloud whose last stored point is exactly this cloud's first in between, a closest-point query on the shared tree in between, a copy-constructed estimator and an estimator overwritten by assignment, and an estimator run on a point-set buffer that is then refilled in place: answers bit-equal to the first run");
   o.str("oracle", "unit Cartesian length; n.p<=0; direction vs long-double PCA of the library's own k-NN answer with bound 6 eps (1+R/s)/gap (cases with gap<=1e-6, bound>0.05 or a k/(k+1) distance tie are skipped); planar clouds: surface normal and zero curvature; curvature in [0,1/DIM]; R n(p) = n'(R p)");
   return o.done();
 }
